@@ -68,6 +68,7 @@ package layer
 //@   assume before "ino, err := n.fs.inodeOfID(tn.id)" : tn != nil
 //@   ensures[C07] n.id == n.fs.rootID && (name == estargz.PrefetchLandmark || name == estargz.NoPrefetchLandmark) ==> result0 == nil && result1 == syscall.ENOENT
 //@   ensures[C07] hasPrefix(name, whiteoutPrefix) ==> result0 == nil && result1 == syscall.ENOENT
+//@   ensures[C07] result1 == 0 && newInodes == old(newInodes) + 1 && newInodeOps == tagof("*whiteout") ==> childErr(mdRef(payload(n.fs.r)), n.id, name)
 // the cached listing answers "no such entry" only for names it does not contain (C02: what Lookup serves agrees with
 // what readdir listed)
 //@   loop 0 invariant[C07,C02] rangeslice == n.ents && (!found ==> (forall j int :: 0 <= j && j <= rangeidx ==> rangeslice[j].Name != name))
@@ -202,9 +203,21 @@ package layer
 //@   ensures[C12] retErr != nil ==> owed == old(owed)
 //@   ensures[C12] retErr == nil ==> result0 != nil && (owed == old(owed) + 1 || owed == old(owed) + 2)
 // helpers whose bodies are not followed here (assumed: they take no reference from the layer / blob caches)
+// every layer / blob cache gets LRUs and a buffer pool of its own: chunk keys are derived from (node id, offset, size)
+// only, so caches shared between layers would serve one layer's bytes for another (C02)
+//@ func util/cacheutil.NewLRUCache
+//@   trusted
+//@   ensures result != nil && fresh(result)
 //@ func newCache
+//@   props C02,C12
+//@   ensures err == nil ==> result0 != nil
+//@   assert[C02] before "return cache.NewDirectoryCache(" : fresh(dCache) && fresh(fCache) && fresh(bufPool) && dCache != fCache
+//@ func cache.NewDirectoryCache
 //@   trusted
 //@   ensures err == nil ==> result0 != nil
+//@ func cache.NewMemoryCache
+//@   trusted
+//@   ensures result != nil
 //@ func fs/remote.(*Resolver).Resolve
 //@   trusted
 //@   ensures err == nil ==> result0 != nil
@@ -224,3 +237,16 @@ package layer
 //@   props C01
 //@   requires l.verifiableReader != nil && l.verifiableReader.r != nil && l.verifiableReader.r.r != nil
 //@   ensures[C01] err == nil ==> l.r != nil && tocOf(payload(l.verifiableReader.r.r)) == tocDigest
+
+// ---- C07: a whiteout node is served only for a name that has no real entry ----
+// newInodes / newInodeOps: number of inodes created through go-fuse's NewInode and the dynamic type of the last one's
+// operations. The reader's metadata view is one object (mdRef).
+//@ ghost newInodes int
+//@ ghost newInodeOps int
+//@ uf mdRef(ref) ref
+//@ func github.com/hanwen/go-fuse/v2/fs.(*Inode).NewInode
+//@   trusted
+//@   modifies newInodes, newInodeOps
+//@   ensures result != nil && newInodes == old(newInodes) + 1 && newInodeOps == typeof(node)
+//@ func interface fs/reader.Reader.Metadata
+//@   ensures result != nil && payload(result) == mdRef(payload(self))
